@@ -316,3 +316,65 @@ def corr_triangular(c, tier, rng, methods=METHODS):
     outs = vlib.run_model(lines)
     for line, got, want, shp, info in zip(lines, outs, wants, shps, infos):
         _compare(c, "triangular-model-vs-impl", line, got, want, shp, info, TOL)
+    # the same cases through the GENERATED definitions (Gen/TriangularGen.lean: `__init__`, `_to_triangular`, the four methods;
+    # `unwrap` = TriGen.unwrap over the generated wrapper bodies), driver op `gtriaff`
+    glines = ["g" + ln for ln in lines]
+    gouts = vlib.run_model(glines)
+    for line, got, want, shp, info in zip(glines, gouts, wants, shps, infos):
+        c.case(("gtri", line), info.get("mode") != "default")
+        c.count(f"triangular-generated:{info.get('mode')}:{'lower' if info.get('lower') else 'upper'}:dim{info.get('n')}")
+        _compare(c, "triangular-generated-vs-impl", line, got, want, shp, info, TOL)
+    corr_triangular_ctor(c, tier, rng)
+
+
+def corr_triangular_ctor(c, tier, rng):
+    """the GENERATED exception-valued `TriangularAffine.__init__` against the real constructor: arrays of rank 0 … 3, square and
+    non-square matrices (also 0 x 0), `loc` a scalar / of size 1 / n / a wrong size; verdict, exception class, declared shape,
+    stored (broadcast) `loc`, and the unwrapped `triangular`."""
+    quick = tier == "quick"
+    jobs = []
+
+    def arr_of(dims):
+        size = int(np.prod(dims)) if dims else 1
+        flat = [rng.uniform(-2, 2) for _ in range(size)]
+        if len(dims) == 2:   # positive diagonal so that the SoftPlus reparameterisation accepts it
+            for i in range(min(dims)):
+                flat[i * dims[1] + i] = math.exp(rng.uniform(-1.2, 1.2))
+        return flat
+
+    shapes = [(), (1,), (3,), (1, 1), (2, 2), (3, 3), (4, 4), (5, 5), (2, 3), (3, 2), (1, 2), (0, 0), (1, 1, 1), (2, 2, 2), (2, 3, 3)]
+    for dims in shapes:
+        n = dims[0] if dims else 0
+        locs = [("scalar", None), ("one", 1), ("n", n), ("n+1", n + 1)] + ([("2", 2)] if n not in (1, 2, 3) else [])
+        for lkind, ln in locs:
+            for lower in (True, False):
+                if quick and len(dims) != 2 and not lower:
+                    continue
+                jobs.append((dims, lkind, ln, lower))
+    lines, reals, infos = [], [], []
+    for dims, lkind, ln, lower in jobs:
+        flat = arr_of(dims)
+        locv = [rng.uniform(-3, 3)] if ln is None else [rng.uniform(-3, 3) for _ in range(ln)]
+        loc_real = jnp.asarray(locv[0]) if ln is None else jnp.asarray(locv, dtype=float)
+        arr_real = jnp.asarray(np.asarray(flat, dtype=float).reshape(dims))
+        try:
+            t = B.TriangularAffine(loc_real, arr_real, lower=lower)
+            u = unwrap(t)
+            real = ("OK", list(t.shape), [float(v) for v in np.ravel(np.asarray(u.loc))], [float(v) for v in np.ravel(np.asarray(u.triangular))])
+        except Exception as ex:  # noqa: BLE001
+            real = ("REJ", type(ex).__name__)
+        lines.append(f"gtriaff ctor {int(lower)} {len(dims)} {vlib.ints(list(dims))} {fs2b(flat)} {fs2b(locv)}")
+        reals.append(real)
+        infos.append(dict(cls="TriangularAffine", dims=list(dims), loc=lkind, lower=lower))
+    outs = vlib.run_model(lines)
+    for line, got, real, info in zip(lines, outs, reals, infos):
+        c.case(("gtri-ctor", tuple(info["dims"]), info["loc"], info["lower"]), True)
+        c.count(f"triangular-generated-ctor:rank{len(info['dims'])}:{real[0]}")
+        toks = got.split(" ")
+        if real[0] == "REJ":
+            ok = toks[0] == "REJ" and toks[1:] == [real[1]]
+        else:
+            ok = toks[0] == "OK" and len(toks) == 4 and [int(v) for v in toks[1].split(",") if v not in ("", "-")] == real[1] \
+                and vlib.allclose(b2fs(toks[2]), real[2], **TOL) and vlib.allclose(b2fs(toks[3]), real[3], **TOL)
+        if not ok:
+            c.mismatch("triangular-generated-ctor-vs-impl", op=line[:300], model=got[:300], impl=[str(x)[:200] for x in real], **info)
